@@ -35,15 +35,28 @@ Theorem C25_flagged_crash_consistent : forall fk h k l,
   crash_consistent fk (fr_recs (run_flagged fk h)) k (crash (fr_log (run_flagged fk h)) k) l.
 Proof. exact flagged_crash_consistent. Qed.
 
-(* Without any assumption on the flush IDs: the record may be that of the flush in progress at the
-   crash point (it is a record of the history; its position is bounded by the end of the log
-   instead of by k). *)
+(* Without any assumption on the flush IDs: the record completed at or before k, or it is the FIRST
+   record of the history that completes after k, i.e. the flush in progress at the crash point
+   (CrashBase.rec_at / crash_consistent_ip). *)
 Theorem C25_flagged_crash_consistent_any_ids : forall fk h k l,
   history_avoids fk h = true ->
   lists_world l (crash (fr_log (run_flagged fk h)) k) ->
-  crash_consistent fk (fr_recs (run_flagged fk h)) (max k (length (fr_log (run_flagged fk h))))
-                   (crash (fr_log (run_flagged fk h)) k) l.
+  crash_consistent_ip fk (fr_recs (run_flagged fk h)) k (crash (fr_log (run_flagged fk h)) k) l.
 Proof. exact flagged_crash_consistent_any_ids. Qed.
+
+(* The other direction (an implementation that always reports "dirty" does not satisfy the theorem
+   set): a crash exactly when a flush has returned is reported as that flush, by any visiting order,
+   whenever a database survives. *)
+Theorem C25_pool_flush_reported : forall fk scale h rc l,
+  history_avoids fk h = true -> In rc (rs_recs (run_pool fk scale h)) ->
+  lists_world l (crash (rs_log (run_pool fk scale h)) (r_pos rc)) -> l <> [] ->
+  check_synced fk l = COk (Some (mark_of CLEAN (r_id rc))).
+Proof. exact pool_flush_reported. Qed.
+Theorem C25_flagged_flush_reported : forall fk h rc l,
+  history_avoids fk h = true -> In rc (fr_recs (run_flagged fk h)) ->
+  lists_world l (crash (fr_log (run_flagged fk h)) (r_pos rc)) -> l <> [] ->
+  check_synced fk l = COk (Some (mark_of CLEAN (r_id rc))).
+Proof. exact flagged_flush_reported. Qed.
 
 (* Recovery reads the verdict off the marks alone: an OK verdict means every surviving database
    carries exactly that (non-dirty) mark, "no flush" means no database carries a mark. *)
@@ -86,6 +99,8 @@ Proof. exact flagged_same_id_counterexample. Qed.
 Print Assumptions C25_pool_crash_consistent.
 Print Assumptions C25_flagged_crash_consistent.
 Print Assumptions C25_flagged_crash_consistent_any_ids.
+Print Assumptions C25_pool_flush_reported.
+Print Assumptions C25_flagged_flush_reported.
 Print Assumptions C25_check_ok_some.
 Print Assumptions C25_check_ok_none.
 Print Assumptions C25_check_order_independent.
